@@ -188,7 +188,7 @@ def run(tier, seed):
                 "add/sub/mul/neg/square (extension, base element, integer, pointer forms), all aliasing patterns, isOne on "
                 "one-like elements (1,x,y), inv/div in a forked child (zero refused), mulScalar with negative / huge decimal "
                 "strings, batchInverse for lengths 1..66; non-trivial = non-canonical coefficient, aliasing, zero, or length>1")
-    res.assumptions = ["hand models of inv/div/mulScalar/batchInverse (Model/Ext.lean) are tied to the code on the executed cases only",
+    res.assumptions = ["hand models of inv/div/mulScalar/batchInverse (Model/Ext.lean) are tied to the code by execution on the listed cases — and ALSO by bridge theorems: the functions are regenerated from the source on every run and proved equal to the hand model (C09_generated_*), so the theorems hold for the current text, not only on the executed cases",
                        "spec = schoolbook polynomial arithmetic over integers reduced mod p and x^3 = x + 1",
                        "C09_generated_*: about Gen/ExtInvGen.lean (inv, div, batchInverse translated from the C++ on every run, "
                        "fuel-bounded); the generated functions are executed against the code as well"]
